@@ -328,6 +328,13 @@ func runOracleScenario(seed int64, stats map[string]int) (string, []string) {
 			} else {
 				if !waitBlocked(w.cl, time.Second) {
 					problem = fmt.Sprintf("W%d never became blocked", w.n)
+					if w.timeout > 0 {
+						// a busy machine may not have looked in time: the command may have blocked and run
+						// into its own (25-55 ms) timeout before the first look
+						if res, ok := get(w.ch, 50*time.Millisecond); ok && (res.reply == "$-1\r\n" || res.reply == "*-1\r\n") && res.took >= w.timeout {
+							problem = "inconclusive"
+						}
+					}
 				}
 				o.waiting = append(o.waiting, w)
 				time.Sleep(time.Millisecond)
